@@ -197,7 +197,9 @@ def abstract(rng, sig, cur, fresh):
     """anti-unify: replace some functional-headed proper subterms of `cur` by fresh variables"""
     theta = {}
     lhs = cur
-    paths = [(p, t) for p, t in subterm_paths(cur) if p and functional_headed(sig, t)]
+    # substitution values must be GROUND (the property's quantifier; a value with a variable would extend the rule's
+    # cached scope and put a metavariable under functional(.), which the checker rejects -- notes/C20.md)
+    paths = [(p, t) for p, t in subterm_paths(cur) if p and functional_headed(sig, t) and not evars(t)]
     rng.shuffle(paths)
     for p, t in paths[:rng.choice([0, 1, 1, 2, 2, 3])]:
         # the path must still exist and hold the same subterm
@@ -210,14 +212,23 @@ def abstract(rng, sig, cur, fresh):
             node = node[3][i]
         if not ok or node != t:
             continue
-        x = fresh()
-        theta[x] = t
+        same = [y for y, v in theta.items() if v == t]
+        if same and rng.random() < 0.7:
+            x = same[0]                        # non-linear left-hand side: the same variable twice
+        else:
+            x = fresh()
+            theta[x] = t
         lhs = replace_at(lhs, p, ('E', x, gen_sortapp(rng, sig)))
     return lhs, theta
 
 
-def gen_rhs(rng, sig, xs, depth):
+def gen_rhs(rng, sig, xs, depth, top=True):
     """term over the variables xs"""
+    if top and rng.random() < 0.04:
+        # an existential on the right-hand side (fresh ?-variable of a K rule): the bound variable joins the
+        # rule's scope and is left uninstantiated by the trace
+        v = ('E', 'Fresh', gen_sortapp(rng, sig))
+        return ('N', 'ex', [v[2], gen_sortapp(rng, sig)], [v, gen_rhs(rng, sig, xs + ['Fresh'], depth, top=False)])
     if xs and rng.random() < 0.35:
         return ('E', rng.choice(xs), gen_sortapp(rng, sig))
     sorts, syms = sig
@@ -227,7 +238,7 @@ def gen_rhs(rng, sig, xs, depth):
     if depth <= -2:
         args = [app(next(z['name'] for z in syms if z['narg'] == 0 and z['npar'] == 0)) for _ in range(y['narg'])]
     else:
-        args = [gen_rhs(rng, sig, xs, depth - 1) for _ in range(y['narg'])]
+        args = [gen_rhs(rng, sig, xs, depth - 1, top=False) for _ in range(y['narg'])]
     return app(y['name'], args, ss)
 
 
@@ -279,7 +290,7 @@ def gen_trace_case(rng, idx):
         if cyc or rng.random() < 0.3:
             for o, (l, r) in cands:
                 th = kmatch(l, cur, {})
-                if th is not None and set(evars(r)) <= set(th):
+                if th is not None and set(evars(r)) <= set(th) and not any(evars(v) for v in th.values()):
                     use = (o, th)
                     break
         if use is None:
